@@ -233,7 +233,11 @@ def run(rep, tier, seed, keep=False):
                     # the other arguments: the typed corpus value, and values that name something the data really holds (a key, an
                     # element, an index) - functions that change "their copy" only do so when there is something to change
                     ps_ = c08.visible_params(fd)
-                    for alt in (None, 'a', ['a', 'b'], 0, 1):
+                    # (a function with *args is also called with further arguments: values the data holds and values it does not)
+                    for alt in (None, 'a', ['a', 'b'], 0, 1) + (('*',) if '*' in fd.parameters else ()):
+                        star = alt == '*'
+                        if star:
+                            alt = None
                         data = {}
                         args = []
                         used_alt = False
@@ -262,6 +266,10 @@ def run(rep, tier, seed, keep=False):
                             continue
                         spec2 = [('text', a) if a is not None else ('omit',) for a in args]
                         text, _b = c08.render(name, fd, spec2)
+                        if text is not None and star:
+                            if not text.endswith(')'):
+                                continue
+                            text = text[:-1] + ('' if text.endswith('(') else ', ') + "1, 'a', 7)"
                         if text is None or (text, repr(data)) in texts:
                             continue
                         texts.add((text, repr(data)))
